@@ -21,4 +21,23 @@ PROPS = {
         trusted=["modelled not verified: nom's streaming combinators (take/be_u8/bits), Vec/BytesMut"],
         assumptions=["tag numbers <= 30 for parsing (the property's domain); content lengths < 2^64; nesting <= 100 constructed levels (limit of the repaired parser)"],
     ),
+    "C06": dict(
+        groups=[("frame", 2000, 120000)],
+        rule="streams of 1-6 well-formed LDAPMessages (16-message corpus, independent encoder, random legal length forms, entries beyond "
+             "Framed's 8 KiB buffer) x partitions: sampled/all 2^13 partitions of a 14-byte two-message stream, one read, byte at a time, "
+             "one and two random cut points, random small chunks, truncated streams. non-trivial = distinct (stream, partition) with at least one delivery",
+        trivial=["need:0", "error", "end"],
+        trusted=["modelled not verified: tokio_util::codec::Framed as append-then-decode loop; BytesMut"],
+        assumptions=["messages are well-formed LDAPMessage envelopes in definite-length BER nested <= 100 levels"],
+    ),
+    "C11": dict(
+        groups=[("hostile", 6000, 400000), ("ber", 600, 20000)],
+        rule="all 1-byte strings, all 2-byte strings under six leading octets, every single-field mutation (class, number, primitive<->constructed, "
+             "emptied, element dropped/swapped/added) of every node of a 16-message corpus, length-octet mutations (+-1, +-128, 0x80..0xff, "
+             "truncation) at every TLV, random bytes, nesting 2..20000 levels, the recorded witnesses. non-trivial = distinct input that is not "
+             "simply incomplete",
+        trivial=["need:0", "incomplete"],
+        trusted=["modelled not verified: stack consumption (only recursion depth is modelled; the lane runs the real parser on 20000-level nests)"],
+        assumptions=["driver-level clauses (decode error observed by every pending operation, unknown op under a live search id) are decided with the connection model (C04 lane); this check covers the decoder"],
+    ),
 }
